@@ -11,8 +11,8 @@ Proof (lean/IstioModel/C13):
                      BuildClusterLoadAssignment; EndToEnd.lean composes the three.
 Tie (T-diff, every run): stream `index` - random sequential op sequences on the REAL
   model.EndpointIndex; stream `sched` - real goroutines parked/released at the verif gate points in
-  scripted orders; stream `cla` - index operations + membership queries through the REAL
-  endpoints.NewEndpointBuilder(...).BuildClusterLoadAssignment of a FakeDiscoveryServer.
+  scripted orders; stream `cla` - index operations + membership queries served by the REAL
+  xds.EdsGenerator (real XdsCache in front of BuildClusterLoadAssignment) of a FakeDiscoveryServer.
 On break: harness `oracle` states the property's clauses directly on the real index / CLA.
 """
 import os
@@ -99,7 +99,7 @@ def run(ctx):
     ctx.diff_stream("index", ctx.n(1500, 30000), oracle=oracle)
     # real goroutines parked / released at the verif gates in scripted orders vs the lock-region model
     ctx.diff_stream("sched", ctx.n(1500, 30000), oracle=oracle)
-    # index operations + membership queries through the real endpoint builder of a FakeDiscoveryServer
+    # index operations + membership queries served by the real EdsGenerator (cache + endpoint builder)
     ctx.diff_stream("cla", ctx.n(1500, 30000), oracle=oracle)
     # the oracle also runs on the corpus of every stream (the F4 witnesses live there)
     cdir = os.path.join(os.path.dirname(os.path.dirname(os.path.abspath(__file__))), "harness", "corpus", ctx.pid)
@@ -169,7 +169,8 @@ MANIFEST = {
     "level_note": ("Trusted: Lean kernel + {propext, Classical.choice, Quot.sound}; the hand-written models, tied by differential testing "
                    "(quick ~4500 cases / thorough ~90000: sequential op sequences on the real EndpointIndex; real goroutines parked and "
                    "released at three verif gate points in scripted orders, with a linearizability verdict computed on the real code; "
-                   "CLA queries through the real endpoint builder of a FakeDiscoveryServer with an independent membership oracle); the "
+                   "CLA queries served by the real EdsGenerator (XdsCache + endpoint builder) of a FakeDiscoveryServer with an independent "
+                   "membership oracle and a served-equals-current check); the "
                    "gate hook pilot/pkg/model/zz_verif_c13*.go; mutex atomicity. Not modelled: multi-network gateway substitution "
                    "(EndpointsByNetworkFilter), locality-LB priorities / failover / distribute (loadbalancer.ApplyToLoadAssignment), "
                    "waypoint, self-discovery, inference-pool and HBONE-tunnel endpoints, CDS-time FromServiceEndpoints; DeleteShard / "
